@@ -28,4 +28,8 @@ GO
 printf 'module warm\n\ngo 1.18\n\nrequire github.com/tidwall/geojson v0.0.0\n\nreplace github.com/tidwall/geojson => /repo\n' > "$T/w/go.mod"
 cp /repo/go.sum "$T/w/go.sum"
 (cd "$T/w" && go build -race -trimpath -o "$T/warm" .) || echo "setup: warm-up build failed (checks will build cold)" >&2
+# second toolchain used by a slice of the thorough tier
+if command -v go1.26.8 >/dev/null 2>&1; then
+	(cd "$T/w" && go1.26.8 build -race -trimpath -o "$T/warm2" .) || echo "setup: go1.26.8 warm-up failed (thorough tier will use one toolchain)" >&2
+fi
 echo "setup ok"
